@@ -136,3 +136,12 @@ for mod, cls in ((M_ARGV, "ArgvArgs"), (M_SARGS, "StringArgs")):
                ensures=["result == (token in self._option_tokens)"])
     R.contract("%s:%s.has_token" % (mod, cls), params={"token": "str"}, returns="bool",
                ensures=["result == (token in self._tokens)"])
+
+# the two forms hand out their token lists in the same way: the list itself (the help resolver edits it in place and puts
+# it back; a form that handed out a copy would be resolved differently)
+for _mod, _cls in ((M_ARGV, "ArgvArgs"), (M_SARGS, "StringArgs")):
+    R.contract("%s:%s.tokens" % (_mod, _cls), params={}, returns="list[str]", ensures=["result is self._tokens"],
+               modifies=[]).is_property = True
+    R.contract("%s:%s.option_tokens" % (_mod, _cls), params={}, returns="list[str]", ensures=["result is self._option_tokens"],
+               modifies=[]).is_property = True
+TOKEN_PROPS = ["%s:%s.%s" % (_m, _c, _p) for _m, _c in ((M_ARGV, "ArgvArgs"), (M_SARGS, "StringArgs")) for _p in ("tokens", "option_tokens")]
